@@ -1,4 +1,6 @@
 """C07 - see MANIFEST below and DESIGN.md section 4/C07."""
+import random
+
 from checks import pfcp_common as pc
 
 MANIFEST = dict(
@@ -9,7 +11,7 @@ MANIFEST = dict(
 
 RULE = 'histories with extreme SEIDs, absent/undecodable Node ID and F-SEID IEs, unknown message types, reports for dead sessions'
 
-GEN = dict(weights=dict(mod=24, dele=12, srr=10, usa=10, dld=8, otherreq=6, otherrsp=6, hb=8), big_seids=True, p_panic=0.25)
+GEN = dict(weights=dict(mod=24, dele=12, srr=10, usa=10, dld=8, otherreq=6, otherrsp=6, hb=8), big_seids=True, p_panic=0.25, p_wfail=0.1)
 N_QUICK, N_THOROUGH = 90, 3000
 
 
@@ -19,5 +21,5 @@ def run(ctx, replay=None):
                            assumptions=[pc.PFCP_NOTE, "byte-level stream: structure-aware mutations (every leaf IE x flag octet x "
                                         "boundary value x tail length systematically, plus random ones) of valid messages, each with its "
                                         "own sequence number, after a valid prefix, against the model data plane and against the REAL gtp5g "
-                                        "driver over the simulated kernel; validation, not proof", "write-failure phase: Session Report Requests whose first transmission fails in the socket, followed by responses / time-outs with that sequence number and a Heartbeat; monitor only (the model has no write failures)"],
-                           extra_phase=wfail_phase.both(wfail_phase.phase("C07"), fuzz_phase.phase), directed=pc.directed_c05)
+                                        "driver over the simulated kernel; validation, not proof", "write-failure phase: Session Report Requests whose first transmission fails in the socket, followed by responses / time-outs with that sequence number and a Heartbeat; model event EvReportWF (theorem C07_failed_write_then_any_event), compared with the model and judged by trace rules"],
+                           extra_phase=wfail_phase.both(wfail_phase.phase("C07"), fuzz_phase.phase), directed=lambda rnd: pc.directed_c05(rnd) + wfail_phase.cases(random.Random(rnd.randrange(1 << 30)), 10))
